@@ -70,6 +70,14 @@ var mgWants = []mgWant{
 	{"internal/trigger/file/file_parser.go", "", "ParseConfigFile", "", "file_ParseConfigFile"},
 	{"internal/trigger/file/stages_worker.go", "", "newStagesWorker", "return", "file_stagesWorker"},
 	{"internal/trigger/file/file_rate.go", "", "newDryRun", "return", "file_dryRun"},
+	{"pkg/f1/testing/t.go", "T", "teardown", "", "t_teardown"},
+	{"pkg/f1/testing/t.go", "T", "Cleanup", "", "t_Cleanup"},
+	{"pkg/f1/testing/t.go", "", "handlePanic", "", "t_handlePanic"},
+	{"pkg/f1/testing/t.go", "", "CheckResults", "", "t_CheckResults"},
+	{"internal/progress/stats.go", "Stats", "Record", "", "stats_Record"},
+	{"internal/progress/stats.go", "Stats", "Snapshot", "", "stats_Snapshot"},
+	{"internal/progress/stats.go", "Stats", "Total", "", "stats_Total"},
+	{"internal/progress/average.go", "DurationStats", "Record", "", "durationStats_Record"},
 }
 
 var timeConsts = map[string]string{"Nanosecond": "1", "Microsecond": "1000", "Millisecond": "1000000",
@@ -87,6 +95,40 @@ var mathFns = map[string]int{"math.Ceil": 1, "math.Floor": 1, "math.Round": 1, "
 // functions whose result is not a function of the program state: oracles
 var oracle0 = map[string]bool{"rand.Float64": true, "time.Now": true, "xtime.NanoTime": true}
 
+// functions of pkg/f1/testing whose body calls recover(): deferring one of them ends a panic of the deferring function
+var recoverers = map[string]bool{}
+
+func findRecoverers(repo string) {
+	recoverers = map[string]bool{}
+	matches, _ := filepath.Glob(filepath.Join(repo, "pkg/f1/testing", "*.go"))
+	for _, m := range matches {
+		if strings.HasSuffix(m, "_test.go") {
+			continue
+		}
+		f, err := parser.ParseFile(token.NewFileSet(), m, nil, 0)
+		if err != nil {
+			continue
+		}
+		for _, d := range f.Decls {
+			fd, ok := d.(*ast.FuncDecl)
+			if !ok || fd.Body == nil || fd.Recv != nil {
+				continue
+			}
+			ast.Inspect(fd.Body, func(n ast.Node) bool {
+				if _, isLit := n.(*ast.FuncLit); isLit {
+					return false
+				}
+				if call, ok := n.(*ast.CallExpr); ok {
+					if id, ok := call.Fun.(*ast.Ident); ok && id.Name == "recover" && id.Obj == nil {
+						recoverers[fd.Name.Name] = true
+					}
+				}
+				return true
+			})
+		}
+	}
+}
+
 type mgCtx struct {
 	fset    *token.FileSet
 	atomics map[string]bool   // struct field names declared with a sync/atomic type in this package
@@ -96,6 +138,7 @@ type mgCtx struct {
 	inLoop  int               // > 0 inside a loop body: niladic methods are read again every time (oracles)
 	loopN   *int              // numbering of the hidden index variables of range loops
 	body    ast.Node          // the function being translated
+	pkgDir  string            // directory of the file, relative to the repository
 }
 
 // the identifier a selector chain is rooted in (nil if it is not one)
@@ -121,9 +164,15 @@ var dynVars = map[string]bool{}
 // function-typed field (`cur.Rate(t)`) is a dynamic call
 var structLocals = map[string]bool{}
 
+// struct fields that hold the user's functions: calling through one is a dynamic call (it may panic)
+var funcFields = map[string]bool{"RunFn": true, "ScenarioFn": true}
+
 func isFuncValue(e ast.Expr) bool {
 	if sel, ok := e.(*ast.SelectorExpr); ok {
 		if id, ok := sel.X.(*ast.Ident); ok && structLocals[id.Name] {
+			return true
+		}
+		if funcFields[sel.Sel.Name] && rootIdent(sel) != nil {
 			return true
 		}
 	}
@@ -179,7 +228,12 @@ func leanStrList(xs []string) string {
 // decides whether the callee panics
 func (c *mgCtx) dynCall(dsts []string, call *ast.CallExpr) string {
 	args := append([]ast.Expr{call.Fun}, call.Args...)
-	return "(.callS " + leanStrList(dsts) + " \"$dyn\" \"$dyn.panics\" " + c.exprList(args) + ")"
+	r := "(.callS " + leanStrList(dsts) + " \"$dyn\" \"$dyn.panics\" " + c.exprList(args) + ")"
+	if sel, ok := call.Fun.(*ast.SelectorExpr); ok && funcFields[sel.Sel.Name] {
+		// the user's function: where the call starts is marked among the effects (clock reads around it are effects too)
+		return "(.seq (.effect " + leanStr(c.path(sel)+"(…)") + ") " + r + ")"
+	}
+	return r
 }
 
 // the callee of a static call as (name, receiver-as-first-argument?)
@@ -422,7 +476,7 @@ func (c *mgCtx) call(x *ast.CallExpr) string {
 			if q == "fmt.Errorf" || q == "errors.New" {
 				return ".fresh" // a new non-nil error
 			}
-			if oracle0[q] && len(x.Args) == 0 {
+			if len(x.Args) == 0 {
 				return "(.call0 " + leanStr(q) + ")"
 			}
 			if len(x.Args) == 1 {
@@ -543,6 +597,28 @@ func (c *mgCtx) callStmt(call *ast.CallExpr, deferred bool) string {
 	if isFuncValue(call.Fun) && !deferred {
 		return c.dynCall(nil, call)
 	}
+	if ix, isIdx := call.Fun.(*ast.IndexExpr); isIdx && !deferred {
+		// xs[i](args): a call of a function value taken from a slice
+		if c.path(ix.X) != "" {
+			return c.dynCall(nil, call)
+		}
+	}
+	if deferred {
+		name := ""
+		switch f := call.Fun.(type) {
+		case *ast.Ident:
+			if strings.HasSuffix(c.pkgDir, "pkg/f1/testing") {
+				name = f.Name
+			}
+		case *ast.SelectorExpr:
+			if id, ok := f.X.(*ast.Ident); ok && id.Obj == nil && id.Name == "testing" {
+				name = f.Sel.Name
+			}
+		}
+		if name != "" && recoverers[name] {
+			return "(.deferRecover " + leanStr(c.text(call.Fun)) + ")"
+		}
+	}
 	if id, isId := call.Fun.(*ast.Ident); isId && len(call.Args) >= 2 && !deferred {
 		return "(.callS [] " + leanStr(id.Name) + " \"\" " + c.exprList(call.Args) + ")"
 	}
@@ -619,6 +695,11 @@ func (c *mgCtx) stmt(s ast.Stmt) string {
 		return c.block(x.List)
 	case *ast.EmptyStmt:
 		return ".skip"
+	case *ast.SendStmt:
+		if p := c.path(x.Chan); p != "" {
+			return "(.seq (.eval " + c.expr(x.Value) + ") (.effect " + leanStr("send "+p) + "))"
+		}
+		return c.unsupportedS(s)
 	case *ast.ExprStmt:
 		if call, ok := x.X.(*ast.CallExpr); ok {
 			return c.callStmt(call, false)
@@ -645,6 +726,14 @@ func (c *mgCtx) stmt(s ast.Stmt) string {
 			return seq(parts)
 		}
 		if len(x.Lhs) >= 2 && len(x.Rhs) == 1 && (x.Tok == token.ASSIGN || x.Tok == token.DEFINE) {
+			if ta, isTA := x.Rhs[0].(*ast.TypeAssertExpr); isTA && len(x.Lhs) == 2 && ta.Type != nil {
+				// v, ok := x.(T)
+				a, b := c.path(x.Lhs[0]), c.path(x.Lhs[1])
+				if a == "" || b == "" {
+					return c.unsupportedS(s)
+				}
+				return "(.callS " + leanStrList([]string{a, b}) + " " + leanStr("assert."+c.text(ta.Type)) + " \"\" [" + c.expr(ta.X) + "])"
+			}
 			// several results of one call
 			call, ok := x.Rhs[0].(*ast.CallExpr)
 			if !ok {
@@ -751,7 +840,53 @@ func (c *mgCtx) stmt(s ast.Stmt) string {
 		if x.Init == nil && x.Post == nil && x.Cond != nil {
 			return "(.while " + c.expr(x.Cond) + "\n  " + c.block(x.Body.List) + ")"
 		}
+		if x.Init != nil && x.Post != nil && x.Cond != nil && !hasBranch(x.Body) {
+			// for init; cond; post { body }  =  init; for cond { body; post }  (no continue / break inside)
+			c.inLoop++
+			r := seq([]string{c.stmt(x.Init), "(.while " + c.expr(x.Cond) + "\n  (.seq " + c.block(x.Body.List) + "\n  " + c.stmt(x.Post) + "))"})
+			c.inLoop--
+			return r
+		}
 		return c.unsupportedS(s)
+	case *ast.SwitchStmt:
+		if x.Init != nil || hasBranch(x.Body) {
+			return c.unsupportedS(s)
+		}
+		var pre []string
+		if x.Tag != nil {
+			pre = append(pre, "(.assign \"$tag\" "+c.expr(x.Tag)+")")
+		}
+		type arm struct{ cond, body string }
+		var arms []arm
+		def := ".skip"
+		for _, cl := range x.Body.List {
+			cc, ok := cl.(*ast.CaseClause)
+			if !ok {
+				return c.unsupportedS(s)
+			}
+			if cc.List == nil {
+				def = c.block(cc.Body)
+				continue
+			}
+			cond := ""
+			for _, v := range cc.List {
+				one := c.expr(v)
+				if x.Tag != nil {
+					one = "(.bin .eq (.var \"$tag\") " + one + ")"
+				}
+				if cond == "" {
+					cond = one
+				} else {
+					cond = "(.bin .lor " + cond + " " + one + ")"
+				}
+			}
+			arms = append(arms, arm{cond, c.block(cc.Body)})
+		}
+		r := def
+		for i := len(arms) - 1; i >= 0; i-- {
+			r = "(.ite " + arms[i].cond + "\n  " + arms[i].body + "\n  " + r + ")"
+		}
+		return seq(append(pre, r))
 	case *ast.RangeStmt:
 		arr := c.path(x.X)
 		if arr == "" || (x.Tok != token.DEFINE && x.Key != nil) {
@@ -834,6 +969,21 @@ func (c *mgCtx) stmt(s ast.Stmt) string {
 	return c.unsupportedS(s)
 }
 
+// break / continue / goto / fallthrough anywhere inside (function literals excluded)
+func hasBranch(n ast.Node) bool {
+	found := false
+	ast.Inspect(n, func(m ast.Node) bool {
+		if _, isLit := m.(*ast.FuncLit); isLit {
+			return false
+		}
+		if _, ok := m.(*ast.BranchStmt); ok {
+			found = true
+		}
+		return true
+	})
+	return found
+}
+
 // struct fields of the package declared with a sync/atomic type
 func atomicFields(af *ast.File) map[string]bool {
 	out := map[string]bool{}
@@ -888,6 +1038,7 @@ func reassigned(fd ast.Node) map[string]bool {
 func translateMiniGo(repo string) string {
 	var out strings.Builder
 	out.WriteString("/- GENERATED by /verif/facts (MiniGo translator) from the current /repo working tree. Do not edit; never committed. -/\nimport F1Verif.Model.MiniGo\nnamespace F1.Generated.MG\nopen F1.MiniGo\n\n")
+	findRecoverers(repo)
 	cache := map[string]*ast.File{}
 	fsets := map[string]*token.FileSet{}
 	atomCache := map[string]map[string]bool{}
@@ -930,7 +1081,7 @@ func translateMiniGo(repo string) string {
 		}
 		loopN := 0
 		c := &mgCtx{fset: fsets[w.file], atomics: atomCache[w.file], rename: map[string]string{}, alias: map[string]string{},
-			opaque: map[string]bool{}, loopN: &loopN, body: fd}
+			opaque: map[string]bool{}, loopN: &loopN, body: fd, pkgDir: filepath.Dir(w.file)}
 		structLocals = map[string]bool{}
 		// locals that receive the results of a call with several results
 		ast.Inspect(fd.Body, func(nd ast.Node) bool {
@@ -1012,7 +1163,7 @@ func translateMiniGo(repo string) string {
 			if depth == len(steps)-1 {
 				fmt.Fprintf(&out, "def %s_init : Stmt :=\n  %s\n\n", w.lean, cc.block(init))
 			}
-			c2 := &mgCtx{fset: c.fset, atomics: c.atomics, rename: map[string]string{}, alias: c.alias, opaque: c.opaque, loopN: c.loopN, body: c.body}
+			c2 := &mgCtx{fset: c.fset, atomics: c.atomics, rename: map[string]string{}, alias: c.alias, opaque: c.opaque, loopN: c.loopN, body: c.body, pkgDir: c.pkgDir}
 			for k, v := range cc.rename {
 				c2.rename[k] = v
 			}
